@@ -1583,7 +1583,8 @@ def c16(res):
         beta = core.DEFAULTS["beta"] * rng.choice([1e-3, 1e3])
         n = rng.randint(2, 4)
         teams = [[(rng.gauss(25, 8) * beta / core.DEFAULTS["beta"], beta * 10 ** rng.uniform(-4, -2)) for _ in range(rng.randint(1, 3))] for _ in range(n)]
-        g = make_game(rng.choice(["PL", "BTF", "BTP"]), teams, oc=("R", random_weak_order(rng, n)), beta=beta, kappa=rng.choice([1e-4, 1e-6]), tau=0.0,
+        g = make_game(rng.choice(["PL", "BTF", "BTP"]), teams, oc=("R", random_weak_order(rng, n)), beta=beta, kappa=rng.choice([1e-4, 1e-6]),
+                      tau=(0.0 if _ % 2 else beta * (1e-6, 3e-6, 1e-5)[_ // 2 % 3]),       # no drift, or a tiny one: tau is a quantity on the skill scale too
                       gamma=rng.choice(gen.GAMMAS))
         res.case(g); res.count("unit_range_end_games")
         c16_one(res, g, rng, games)
